@@ -100,6 +100,13 @@ def rule_b(ctx, E, f, img_b):
         if mut:
             mutators.append(k.name)
     ctx.floor(R, 10)
+    # with overwrite fixed to False (dead branches pruned) the shared workflow itself must not have a mutation event rooted at the input
+    ovw = next((x for x in f.params if x == "overwrite"), None)
+    if ovw is not None:
+        ev, _ = E.analyse_with(f, {ovw: False})
+        mine = [e for e in ev if e.root == p]
+        ctx.ob(R, f.qname, "with overwrite=False the workflow does not modify the input image", not mine,
+               "; ".join(str(e) for e in mine[:2])[:260] + " -- the caller's image is changed although a copy was asked for", f.node, evidence=True)
     for s in sites:
         ctx.note(f"C10.b: {norm(s)[:70]} passes a view of the input image on the non-overwrite path (harmless today: no correction writes into its argument; mutating classes: {mutators})")
     ctx.stat("view_sites", len(sites))
